@@ -48,16 +48,25 @@ class Generated:
         self.renamed = {}          # fn key -> {actual: pinned} alpha-renaming applied     # kept functions (verified with their bodies) that carry no contract      # contracted functions that no longer exist: (file, key, props)
     def text(self):
         return '\n'.join(self.lines) + '\n'
+    SAFETY = ('termination', 'overflow', 'range', 'div_zero', 'shift')
+    def props_of(self, owner, failure=None):
+        """default properties of a function. An entry `Cxx!` means: only the function's safety and termination obligations belong to Cxx
+        (overflow, index/range, division, shift, termination, preconditions of library functions such as unwrap) - not its functional contract."""
+        out = []
+        for p in self.owner_props.get(owner, []) or []:
+            if not p.endswith('!'): out.append(p)
+            elif failure is None or failure.kind in self.SAFETY or (failure.kind == 'precondition' and 'library specification' in (failure.clause_text or '')): out.append(p[:-1])
+        return out
     def relying_props(self, key):
         """properties of `key` and of every function of the unit whose text calls something of that name (over-approximate, by last
         path segment): when `key` is left unverified, its contract - possibly an implicit one such as a FromSpecImpl - is an
         assumption of exactly those proofs"""
         name = re.split(r'::', key)[-1]
         pat = re.compile(r'(?:\.|::|\b)%s\s*(?:::<[^>]*>)?\(' % re.escape(name))
-        props = set(self.owner_props.get(key, []))
+        props = set(self.props_of(key))
         for ln, own in zip(self.lines, self.owner):
             if own and own != key and not str(own).startswith('ghost:') and pat.search(ln):
-                props |= set(self.owner_props.get(own, []))
+                props |= set(self.props_of(own))
         return sorted(props)
 
 _FNHDR = re.compile(r'^\s*(?:pub(?:\([a-z]+\))?\s+)?(?:(?:open|closed|uninterp|broadcast|const)\s+)*(?:(?:spec|proof|exec|axiom)\s+)?fn\s+(\w+)')
@@ -204,7 +213,7 @@ def generate(unit, repo_src=None, modes=None, probe=False):
                 g.binding_seqs[key] = _loc2.binding_seq(f, fn)
         missing = [k for k in sf.fns if k not in f.fns]
         for k_ in missing:
-            g.missing.append((sf.name, k_, list(sf.fns[k_].props) or list(sf.props)))
+            g.missing.append((sf.name, k_, [p_.rstrip('!') for p_ in (list(sf.fns[k_].props) or list(sf.props))]))
         text, org = ed.apply()
         # textual rules with counters (rule 13 etc.) are applied on the edited text but only change listed patterns
         for (rname, pat, rep) in sf.regex_rules:
@@ -251,7 +260,7 @@ def generate(unit, repo_src=None, modes=None, probe=False):
             g.lines.append(ln)
         for key in f.fns:
             sp = sf.fns.get(key)
-            g.owner_props.setdefault(key, list(sp.props) if (sp and sp.props) else list(sf.props))
+            g.owner_props.setdefault(key, (list(sp.props) + [p_ for p_ in sf.props if p_.endswith('!') and p_ not in sp.props]) if (sp and sp.props) else list(sf.props))
         if sf.footer: _emit_text(g, sf.footer, sf.props, sf.name)
     for i, ln in enumerate(g.lines):
         if g.origin[i] is None and re.search(r'\b(assume|admit)\s*\(', ln) and not ln.strip().startswith('//') and 'assume_specification' not in ln:
